@@ -182,6 +182,7 @@ type Engine struct {
 	qwhy            string
 	noIfConv        bool
 	siteKnown       []KnownFinding
+	inPath          bool
 }
 
 type methKey struct {
@@ -251,7 +252,7 @@ func (e *Engine) evalBool(t *Term) (bool, bool) {
 
 // sat checks pc ∧ extra. On sat, the model is fetched lazily by satModel.
 func (e *Engine) check(extra ...*Term) string {
-	if !e.deadline.IsZero() && !e.spec && time.Now().After(e.deadline) {
+	if e.inPath && !e.deadline.IsZero() && !e.spec && time.Now().After(e.deadline) {
 		e.deadlineHit = true
 		panic(pathEnd{kind: endInconclusive, msg: "instance time limit reached", site: e.site()})
 	}
